@@ -109,9 +109,11 @@ func analyse(cs *Case) *forestInfo {
 					f.MaxDepth = steps + 1
 				}
 			}
-			for _, ch := range ti.Children {
-				if len(ch) > f.MaxFan {
-					f.MaxFan = len(ch)
+			if wf {
+				for _, ch := range ti.Children {
+					if len(ch) > f.MaxFan {
+						f.MaxFan = len(ch)
+					}
 				}
 			}
 		}
@@ -251,7 +253,6 @@ func checkTraceList(c *sut.Client, cs *Case, f *forestInfo, now int64, o *pt.Obs
 	pages := (len(f.Order)+49)/50 + 1 // one page beyond the last: safety only
 	lastFull := (len(f.Order) + 49) / 50
 	seen := map[string]*listedTrace{}
-	pageFailed := false
 	for p := 1; p <= pages; p++ {
 		what := fmt.Sprintf("trace search page %d", p)
 		hr, err := httpOp(c, "searchTraces", map[string]interface{}{"searchText": "service=* name=*", "startEpoch": se,
@@ -267,7 +268,6 @@ func checkTraceList(c *sut.Client, cs *Case, f *forestInfo, now int64, o *pt.Obs
 				return fmt.Errorf("%s over a well-formed forest answered %d: %s", what, hr.Status, clip(hr.Body))
 			}
 			o.Class("list_error_on_malformed")
-			pageFailed = true
 			continue
 		}
 		var res struct {
@@ -277,7 +277,6 @@ func checkTraceList(c *sut.Client, cs *Case, f *forestInfo, now int64, o *pt.Obs
 			if f.AllWF {
 				return fmt.Errorf("%s: undecodable answer (%v): %s", what, err, clip(hr.Body))
 			}
-			pageFailed = true
 			continue
 		}
 		for _, lt := range res.Traces {
@@ -297,7 +296,6 @@ func checkTraceList(c *sut.Client, cs *Case, f *forestInfo, now int64, o *pt.Obs
 		}
 	}
 	if !f.AllWF {
-		_ = pageFailed
 		return nil // malformed forest: error or partial view is acceptable
 	}
 	for _, id := range f.Order {
